@@ -1,2 +1,140 @@
 // property C15, harness c15::drop_router_key_iff_bgpsec_filter_matches
 // failed: assertion failed: got == expect @ src/c15.rs
+// native replay: dev: panic: src/c15.rs:153:5: assertion `left == right` failed; release: panic: src/c15.rs:153:5: assertion `left == right` failed
+// run: cd /verif && ./replay /verif/replays/C15-drop_router_key_iff_bgpsec_filter_matches.rs
+/// Test generated for harness `c15::drop_router_key_iff_bgpsec_filter_matches` 
+///
+/// Check for `assertion`: "assertion failed: got == expect"
+
+#[test]
+fn kani_concrete_playback_drop_router_key_iff_bgpsec_filter_matches_18118383457381017482() {
+    let concrete_vals: Vec<Vec<u8>> = vec![
+        // 0
+        vec![0],
+        // 12
+        vec![12],
+        // 340199290171201906221318119490500689919
+        vec![255, 255, 255, 255, 255, 255, 255, 255, 255, 255, 255, 255, 255, 255, 239, 255],
+        // 0
+        vec![0],
+        // 1
+        vec![1],
+        // 0
+        vec![0, 0, 0, 0],
+        // 0
+        vec![0],
+        // 4
+        vec![4],
+        // 276479423123262501563991868538311671807
+        vec![255, 255, 255, 255, 255, 255, 255, 255, 255, 255, 255, 255, 255, 255, 255, 207],
+        // 1
+        vec![1],
+        // 1
+        vec![1],
+        // 4294967295
+        vec![255, 255, 255, 255],
+        // 0
+        vec![0],
+        // 0
+        vec![0],
+        // 1
+        vec![1],
+        // 128
+        vec![128],
+        // 127
+        vec![127],
+        // 191
+        vec![191],
+        // 128
+        vec![128],
+        // 0
+        vec![0],
+        // 0
+        vec![0],
+        // 0
+        vec![0],
+        // 0
+        vec![0],
+        // 0
+        vec![0],
+        // 0
+        vec![0],
+        // 0
+        vec![0],
+        // 0
+        vec![0],
+        // 1
+        vec![1],
+        // 0
+        vec![0],
+        // 0
+        vec![0],
+        // 0
+        vec![0],
+        // 1
+        vec![1],
+        // 0
+        vec![0],
+        // 128
+        vec![128],
+        // 123
+        vec![123],
+        // 1
+        vec![1],
+        // 4294967295
+        vec![255, 255, 255, 255],
+        // 1
+        vec![1],
+        // 1
+        vec![1],
+        // 4294967295
+        vec![255, 255, 255, 255],
+        // 1
+        vec![1],
+        // 4294967295
+        vec![255, 255, 255, 255],
+        // 43
+        vec![43],
+        // 127
+        vec![127],
+        // 191
+        vec![191],
+        // 43
+        vec![43],
+        // 0
+        vec![0],
+        // 0
+        vec![0],
+        // 0
+        vec![0],
+        // 0
+        vec![0],
+        // 0
+        vec![0],
+        // 0
+        vec![0],
+        // 0
+        vec![0],
+        // 0
+        vec![0],
+        // 0
+        vec![0],
+        // 0
+        vec![0],
+        // 0
+        vec![0],
+        // 255
+        vec![255],
+        // 0
+        vec![0],
+        // 0
+        vec![0],
+        // 41
+        vec![41],
+        // 127
+        vec![127],
+        // 4294967295
+        vec![255, 255, 255, 255],
+    ];
+    kani::concrete_playback_run(concrete_vals, drop_router_key_iff_bgpsec_filter_matches);
+}
